@@ -15,4 +15,5 @@ import (
 	_ "verifharness/internal/props/c16"
 	_ "verifharness/internal/props/c17"
 	_ "verifharness/internal/props/c18"
+	_ "verifharness/internal/props/c19"
 )
